@@ -7,7 +7,7 @@
 // Input lines ($VERIF_IN):
 //
 //	explore <limit> <eplimit> <nreq> <npaths> <pre 0|1>   every order of arrive/cancel/finish (DFS by re-execution)
-//	random  <seed> <count> <nreq> <npaths>                 random walks, including multi-event windows
+//	random  <seed> <count> <nreq> <npaths>                 random walks, including multi-event windows (also several calls made in one window)
 //	replay  cfg L E ; ev ; ev & ev ; … ; idle              one given history
 //
 // Output ($VERIF_OUT): one line per executed history, `cfg L E ; ev | obs ; … ; idle | entries n probe ok`.
@@ -475,9 +475,25 @@ func randomWalk(t *testing.T, rng *rand.Rand, nreq, npaths int) string {
 		l := line{pick()}
 		if rng.Intn(4) == 0 {
 			// a second (and rarely a third) event on another request in the same quiescence window
+			arrivals := 0
+			if strings.HasPrefix(l[0].kind, "arrive") {
+				arrivals = 1
+			}
 			for k := 0; k < 1+rng.Intn(2); k++ {
 				e2 := pick()
-				dup := strings.HasPrefix(e2.kind, "arrive")
+				if strings.HasPrefix(e2.kind, "arrive") {
+					// a further call made in the same window (often for the same path: the calls race for registration
+					// and, past the per-path limit, for the total limit)
+					e2.id = len(st.arrived) + arrivals
+					if e2.id >= nreq {
+						continue
+					}
+					if arrivals > 0 && rng.Intn(3) > 0 {
+						e2.path = l[0].path
+					}
+					arrivals++
+				}
+				dup := false
 				for _, e := range l {
 					if e.id == e2.id {
 						dup = true
